@@ -403,7 +403,7 @@ func runCheck(id, tier string, o RunOpts) int {
 			problems = append(problems, r.Name+": "+s)
 		}
 		if r.PathBudget {
-			problems = append(problems, r.Name+": path budget exhausted")
+			problems = append(problems, r.Name+": path or wall-clock budget exhausted (exploration incomplete)")
 		}
 		for _, e := range r.SolverErrs {
 			problems = append(problems, r.Name+": solver error line: "+e)
